@@ -150,14 +150,14 @@ let hash_cmd (s : session) (k : int) (t : string list) : string =
   | _ -> "badop"
 
 (* ---- tree *)
-let tree_state (s : session) (full : bool) : string =
+let tree_state ?(agree = true) (s : session) (full : bool) : string =
   let shape = C.tree_shape s.tree in
   let h = ref 7 in
   let b = Buffer.create 64 in
   let budget = ref (if full || List.length s.tlive <= 12 then 64 else 0) in
   List.iter (fun c -> h := hmix !h (zint (z_of_cz c)); if !budget > 0 then (Buffer.add_string b (zi c ^ ","); decr budget)) shape;
   (* ok = the PROVEN state checker TreeGeneral.tree_state_ok evaluated on the model state (C18_tree_checked_state_semantics) *)
-  Printf.sprintf "n=%d ok=%d sh=%d s=[%s]" (List.length s.tlive) (if C.tree_state_ok s.tree then 1 else 0) !h (Buffer.contents b)
+  Printf.sprintf "n=%d ok=%d sh=%d s=[%s]" (List.length s.tlive) (if C.tree_state_ok s.tree && agree then 1 else 0) !h (Buffer.contents b)
 
 let tree_cmd (s : session) (t : string list) : string =
   match t with
@@ -171,13 +171,17 @@ let tree_cmd (s : session) (t : string list) : string =
       | Some _ ->
         let id = s.tnode_seq in
         s.tnode_seq <- id + 1;
+        (* the heap model and the proven abstract insertion give the same tree (a theorem: C18_tree_insert_unbounded; re-checked) *)
+        let agree = C.insert_agrees s.tree (ci id) k in
         s.tree <- C.tree_insert s.tree (ci id) k; s.tlive <- s.tlive @ [(id, k)];
-        Printf.sprintf "ins=%d %s" id (tree_state s false) end
+        Printf.sprintf "ins=%d %s" id (tree_state ~agree s false) end
   | "r" :: j :: _ ->
     if s.tlive = [] then "skip" else begin
       let (i, (id, _)) = nth_mod s.tlive (Z.of_string j) in
+      (* the heap model of remove and the proven abstract removal (C18_tree_remove_abstract) give the same tree *)
+      let agree = C.remove_agrees s.tree (ci id) in
       s.tree <- C.tree_remove s.tree (ci id); s.tlive <- remove_nth s.tlive i;
-      Printf.sprintf "rem=%d %s" id (tree_state s false) end
+      Printf.sprintf "rem=%d %s" id (tree_state ~agree s false) end
   | "g" :: key :: _ -> Printf.sprintf "get=%s %s" (zi (C.tree_get s.tree (cs key))) (tree_state s false)
   | "d" :: _ -> tree_state s true
   | _ -> "badop"
@@ -319,8 +323,11 @@ let () =
         | "N" :: minb :: st :: _, _ -> let s = new_session minb st in sess := Some s; reset_strs (); "N " ^ arena_dump s.arena
         | ("AO" | "AR" | "AF" | "AZ" | "AS" | "AD" | "AG" | "V" | "H" | "T" | "L" | "P" | "K") :: _, None -> "nosession"
         | "AO" :: size :: _, Some s ->
+          (* the pointer-level scan loop (ArenaChainModel.scan_fixed) and the list-level scan of the arena model agree
+             (a theorem for chains of any length: C18_arena_chain_scan_general; re-checked on every allocation) *)
+          let agree = C.chain_scan_agrees s.arena (cs size) in
           let (r, a') = C.alloc_oneshot mok s.arena (cs size) in s.arena <- a';
-          "AO " ^ canon r ^ " " ^ arena_dump a'
+          "AO " ^ canon r ^ " " ^ arena_dump a' ^ (if agree then "" else " POINTER-LEVEL-CHAIN-MODEL-DIFFERS")
         | "AR" :: size :: _, Some s ->
           let (r, a') = C.alloc_reusable mok s.arena (cs size) in s.arena <- a';
           (match r with
